@@ -5,6 +5,7 @@ R10.hom     toMatrix33(q1*q2) = toMatrix33(q1) * toMatrix33(q2) (row-vector conv
             q*inverse(q) = 1; invert() == inverse(); ~q conjugates; unit matrices are orthonormal with det +1
 R10.aa      Quat::setAxisAngle(a, w).toMatrix44() == Matrix44::setAxisAngle(a, w) (half-angle identities, |unit a| = 1)
 R10.extract extractQuat(q.toMatrix44()) is parallel to q and unit, on every branch (trace > 0 / largest diagonal)
+R10.pivot   extractQuat, negative-trace branch: the pivot component is that of a largest diagonal entry (D-ord)
 R10.setrot  setRotation(from, to) is a unit quaternion carrying from/|from| onto to/|to| on the <= 90, > 90 and
             exactly-opposite paths; rotationMatrix(from,to) = setRotation(from,to).toMatrix44()
 R10.slerp   slerpShortestArc negates q2 exactly when q1.q2 < 0; slerp(t=0) = normalized(q1), slerp(t=1) = normalized(q2)
@@ -198,6 +199,36 @@ def main(rep, ws, tier):
                 if not ctx.requal(nn, (ONE, ONE)): return ('branch %s: result is not unit: |q\'|^2 = %s' % (PC.show_asg(asg)[:120], P.show_rat(nn, ctx)[:120]), None, fn_where(S.fn))
             return (None, 'on all %d branch cases the result is unit and parallel to q (q or -q)' % n_, fn_where(S.fn))
         ob('extractQuat(toMatrix44(q))', 'R10.extract', extract)
+
+        def pivot():
+            """negative-trace branch: the component computed as sqrt(...)/2 (the pivot, later the divisor 0.5/s of the
+            other three) belongs to a LARGEST diagonal entry, on every weak ordering of the diagonal consistent with the path"""
+            from engine import ordd
+            S = S_('w_extract')
+            eo = outs(S, 'a0', 4)
+            J = T.mk('tuple', None, tuple(eo), None)
+            from .common import hoist, lift_all
+            J = hoist(T.mk('tuple', None, tuple(lift_all(x, [500000]) for x in eo), None))
+            diag = [agg.slot_in('a1', 5 * i, t) for i in range(3)]
+            npaths = 0
+            def half_s(x):
+                return x.op == 'fmul' and any(a.op == 'call' and 'sqrt' in str(a.attr) for a in x.args) and any(a.op == 'const' for a in x.args)
+            for lits, leaf in T.leaves(J, 4096):
+                if leaf.op != 'tuple': continue
+                piv = [i for i in range(3) if half_s(leaf.args[1 + i])]      # Quat layout: r, v.x, v.y, v.z
+                if len(piv) != 1: continue            # positive-trace leaf: r = s/2, no diagonal pivot
+                i = piv[0]; npaths += 1
+                dl = [(c, v) for c, v in lits if c.op == 'fcmp' and all(a in diag for a in c.args)]
+                for wo in ordd.weak_orderings(3):
+                    env = {d.id: r for d, r in zip(diag, wo)}
+                    if all(bool(ordd.ev(c, env)) == v for c, v in dl):
+                        if env[diag[i].id] != max(wo):
+                            names = ['m00', 'm11', 'm22']
+                            order = ' '.join('%s:%d' % (n_, r) for n_, r in zip(names, wo))
+                            return ('with diagonal ranks %s the pivot is %s, not a largest diagonal entry (s = 2|q_%s| can be tiny while another component is large: the quotients 0.5/s lose all accuracy)' % (order, names[i], 'xyz'[i]), None, fn_where(S.fn))
+            if npaths < 3: return ('only %d pivot paths recognised' % npaths, None, fn_where(S.fn))
+            return (None, '%d pivot paths: the pivot is a largest diagonal entry on every consistent ordering' % npaths, fn_where(S.fn))
+        ob('extractQuat pivot choice', 'R10.pivot', pivot)
 
         def setrot():
             S = S_('w_setrot')
